@@ -36,6 +36,9 @@ def tasks(tier):
     for mx, W in itertools.product([0, 1, 2, 3], [2, 3]):
         out.append({"family": "budget-raw", "cfg": {"max": mx, "window": W}, "entry": "Budget",
                     "bound": depth, "weight": 5})
+    for mx, W in [(1, 2), (2, 3), (1, 3)]:
+        out.append({"family": "budget-raw", "cfg": {"max": mx, "window": W, "frac_tick": True},
+                    "entry": "Budget", "bound": depth - 2, "weight": 5})
     for mx, W, pat in itertools.product([0, 1, 2], [2, 4],
                                         [("Retry.execute", "AsyncRetry.call"),
                                          ("Policy.call", "AsyncRetry.execute"),
